@@ -185,6 +185,13 @@ func (t *Table) Format(w io.Writer) error {
 				spanCols = append(spanCols, col)
 			}
 		}
+		if len(spanCols) == 0 {
+			// Every column of the span is a shrink column, but
+			// the cell still has to fit: grow the last one.
+			last := cell.col + cell.span - 1
+			w += ws[last]
+			spanCols = append(spanCols, last)
+		}
 		// Process the wider columns first.
 		sort.Slice(spanCols, func(i, j int) bool {
 			return ws[spanCols[i]] > ws[spanCols[j]]
